@@ -454,6 +454,54 @@ def run(ctx):
         ctx.pfails.append(("gen:prep-table", m, "tables", {}, {}))
     run_grid(ctx)
     run_fresh(ctx)
+    run_rng_failure(ctx)
+
+
+def run_rng_failure(ctx):
+    """every place the library asks the random generator for key material, IVs or salts: when that request fails
+    (RAND_bytes reports failure and writes nothing) the operation fails — it never hands out whatever the buffer held"""
+    import jwegen as E
+    rng = ctx.rng
+    pool = K.pool(ctx.jose)
+    cases = [("jwk.gen", {"jwk": {"kty": "oct", "bytes": 16}}), ("jwk.gen", {"jwk": {"alg": "A256GCM"}}), ("jwk.gen", {"jwk": {"alg": "HS512"}}),
+             ("jwk.gen", {"jwk": {"alg": "A128KW"}})]
+    for enc in E.ENCS:
+        cases.append(("jwe.enc_cek", {"jwe": {"protected": {"enc": enc}}, "cek": {"kty": "oct", "k": G.b64u(rng.randbytes(E.CEKLEN[enc]))}, "pt": "c0de"}))
+    for w, kn in (("A128KW", "oct-16"), ("A256GCMKW", "oct-32"), ("PBES2-HS256+A128KW", None), ("RSA-OAEP", "RSA-2048"), ("ECDH-ES+A128KW", "EC-P256"), ("dir", None)):
+        key = "a password" if w.startswith("PBES2") else dict(pool["oct-32"], alg="A256GCM") if w == "dir" else pool[kn]
+        prot = {"enc": "A256GCM"} if w == "dir" else {"alg": w, "enc": "A128CBC-HS256"}
+        if w.startswith("PBES2"):
+            prot["p2c"] = 1000
+        cases.append(("jwe.enc", {"jwe": {"protected": prot}, "jwk": key, "pt": "c0de"}))
+    ops, meta = [], []
+    base = ctx.real([(o, dict(a, rand=rng.randbytes(400).hex())) for o, a in cases])
+    for (o, a), r0 in zip(cases, base):
+        if not r0.get("ok"):
+            ctx.pfails.append(("gen:rng-setup", "%s refused without any fault: %s" % (o, json.dumps(a)[:200]), o, a, r0))
+            continue
+        for k in range(0, 4):
+            ops.append((o, dict(a, rand=rng.randbytes(400).hex(), rand_fail=k)))
+            meta.append(k)
+    real = ctx.real(ops)
+    fired = 0
+    for (o, a), k, r in zip(ops, meta, real):
+        ctx.evaluations += 1
+        ctx.count("op:rng-failure")
+        if "crash" in r:
+            ctx.pfails.append(("crash:" + o, r["crash"], o, a, r))
+            continue
+        if r.get("ok"):
+            ctx.count("rng-failure:completed")
+            # request number k was made (the library went on to request k+1 or finished) and was told it failed
+            if r.get("rand_calls", 0) > k:
+                out = r.get("jwk") or r.get("jwe") or {}
+                ctx.pfails.append(("gen:rng-failure-ignored", "%s completed although request %d (of %d) to the random generator reported failure: %s"
+                                   % (o, k, r.get("rand_calls"), json.dumps(out)[:300]), o, a, r))
+        else:
+            fired += 1
+    ctx.count("rng-failure:refused", fired)
+    if fired == 0:
+        ctx.pfails.append(("gen:rng-failure-harness", "no injected generator failure made any operation fail", "jwk.gen", {}, {}))
 
 
 def replay(ctx, rp):
